@@ -201,6 +201,9 @@ Definition r_ret {X} (v : X) (e : rerr) : res X :=
 
 Definition g_nth {X} (l : list X) (i : nat) : res X :=
   match nth_error l i with Some x => Ok x | None => Panic end.
+(* l[i] = x *)
+Definition g_set {X} (l : list X) (i : nat) (x : X) : res (list X) :=
+  match list_set l i x with Some r => Ok r | None => Panic end.
 
 (* ---------------------------------------------------------------- tool calls (schema.concatToolCalls) *)
 
